@@ -88,6 +88,13 @@ pub fn run(run: &Run) {
         }
         true
     });
+    collisions(run, "fingerprint_collisions", &|s, l| profs.iter().all(|p| match check(run, *p, s, l) {
+        Ok(()) => true,
+        Err(v) => {
+            run.violate(v);
+            false
+        }
+    }));
     stress(run, "alignment_and_runs", &PAYLOADS_USER, &|s, l| {
         for p in profs {
             if check(run, p, s, l).is_err() {
